@@ -569,6 +569,17 @@ class Interp:
             setattr(o, t.attr, v)
         elif isinstance(t, ast.Subscript):
             o = self.ev(t.value, env)
+            if isinstance(t.slice, ast.Slice):
+                if not isinstance(o, list):
+                    raise AnalysisError(f'interpreter: slice assignment `{norm(t)[:60]}` on {type(o).__name__} is not modelled')
+                lo = self.ev(t.slice.lower, env) if t.slice.lower else None
+                hi = self.ev(t.slice.upper, env) if t.slice.upper else None
+                stp = self.ev(t.slice.step, env) if t.slice.step else None
+                try:
+                    o[lo:hi:stp] = list(v)
+                except ValueError:
+                    raise Raised('ValueError', t)
+                return
             o[self.ev(t.slice, env)] = v
         elif isinstance(t, (ast.Tuple, ast.List)):
             vs = list(v)
@@ -639,7 +650,10 @@ class Interp:
             if isinstance(e.slice, ast.Slice):
                 lo = self.ev(e.slice.lower, env) if e.slice.lower else None
                 hi = self.ev(e.slice.upper, env) if e.slice.upper else None
-                return v[lo:hi]
+                stp = self.ev(e.slice.step, env) if e.slice.step else None
+                if isinstance(v, (Obj, ClassRef)):
+                    raise AnalysisError(f'interpreter: slice of a stand-in in `{norm(e)[:60]}`')
+                return v[lo:hi:stp]
             k = self.ev(e.slice, env)
             try:
                 return v[k]
